@@ -406,7 +406,7 @@ impl Decode for HunkHeader {
         header.new_size = size.parse()?;
 
         let s = s.strip_prefix(' ').unwrap_or(s);
-        header.text = s.as_bytes().to_vec();
+        header.text = strip_eol(s).as_bytes().to_vec();
 
         Ok(header)
     }
